@@ -16,6 +16,7 @@ import (
 	"path/filepath"
 	"sort"
 	"strings"
+	"sync/atomic"
 	"testing"
 	"time"
 
@@ -346,6 +347,7 @@ type c08Scen struct {
 	refuse   bool
 	qRules   []string
 	sRules   []string
+	hour     atomic.Uint32 // the scripted unit clock of the statistics
 	uids     map[client.UID]uint64
 	cls      map[string]*client.Persistent
 	evs      []string
@@ -400,6 +402,7 @@ func c08New(t *testing.T, base string, n int, anon, refuse bool, qRules, sRules 
 		anonSeen: anon, uids: map[client.UID]uint64{}, cls: map[string]*client.Persistent{}, cls2: map[string]bool{},
 		allowLog: map[string]int{}, allowStat: map[string]int{}, allowDom: map[string]int{}}
 	sc.dhcp = &c08DHCP{tbl: map[netip.Addr]net.HardwareAddr{}}
+	sc.hour.Store(480000)
 	var err error
 	sc.stor, err = client.NewStorage(context.Background(), &client.StorageConfig{
 		Logger: slogutil.NewDiscardLogger(), Clock: timeutil.SystemClock{}, DHCP: sc.dhcp})
@@ -438,7 +441,8 @@ func c08New(t *testing.T, base string, n int, anon, refuse bool, qRules, sRules 
 	_ = sc.ql.Start(context.Background())
 	sc.st, err = stats.New(stats.Config{
 		Logger: slogutil.NewDiscardLogger(), ConfigModified: func() {}, ShouldCountClient: sc.shouldCountClient,
-		HTTPRegister: reg, Ignored: sc.sEngine, Filename: filepath.Join(dir, "stats.db"), Limit: timeutil.Day, Enabled: true})
+		HTTPRegister: reg, Ignored: sc.sEngine, Filename: filepath.Join(dir, "stats.db"), Limit: timeutil.Day, Enabled: true,
+		UnitID: func() uint32 { return sc.hour.Load() }})
 	if err != nil {
 		t.Fatal(err)
 	}
@@ -692,6 +696,45 @@ func (sc *c08Scen) flush() {
 	sc.desc = append(sc.desc, "flush")
 }
 
+// rotate renames querylog.json to querylog.json.1, as the hourly rotation
+// check does when the oldest record is older than the rotation interval.
+func (sc *c08Scen) rotate() {
+	if err := querylog.VerifRotate(context.Background(), sc.ql); err != nil {
+		sc.t.Fatalf("rotate: %v", err)
+	}
+	sc.evs = append(sc.evs, "SRotate")
+	sc.desc = append(sc.desc, "rotate querylog.json -> querylog.json.1")
+	sc.cls2["rotation"] = true
+}
+
+// roll advances the scripted hour of the statistics by k and runs one
+// iteration of the periodic flush: the current unit goes to stats.db.
+func (sc *c08Scen) roll(k uint32) {
+	sc.hour.Add(k)
+	stats.VerifFlush(sc.st)
+	sc.evs = append(sc.evs, "SRoll")
+	sc.desc = append(sc.desc, fmt.Sprintf("statistics hour +%d, unit flushed", k))
+	sc.cls2["unit-rollover"] = true
+}
+
+// setStatsConf changes the statistics ignore list through the API.
+func (sc *c08Scen) setStatsConf(rules []string) {
+	if rules == nil {
+		rules = []string{}
+	}
+	body, _ := json.Marshal(map[string]any{"enabled": true, "interval": 86400000, "ignored": rules})
+	w := sc.call(http.MethodPut, "/control/stats/config/update", string(body))
+	if w.Code != http.StatusOK {
+		sc.t.Fatalf("stats config update: %d %s", w.Code, w.Body.String())
+	}
+	sc.sRules = rules
+	sc.sEngine, _ = aghnet.NewIgnoreEngine(rules)
+	sc.evs = append(sc.evs, vfApp("SStatsConf", c08RulesCoq(rules), c08Table(sc.sEngine)))
+	sc.desc = append(sc.desc, fmt.Sprintf("PUT stats/config/update ignored=%v", rules))
+	sc.cls2["stats-config-change"] = true
+	c08RuleClasses(sc.cls2, rules)
+}
+
 func (sc *c08Scen) search(tag string) {
 	w := sc.call(http.MethodGet, "/control/querylog?limit=1000", "")
 	var resp struct {
@@ -757,57 +800,26 @@ func (sc *c08Scen) divKey(k string) string {
 
 func (sc *c08Scen) everAnon() bool { return sc.anonSeen }
 
-func (sc *c08Scen) finish(out *vfOut, tag string) {
-	sc.flush()
-	// the file
-	var fileItems []string
-	stored := map[string]int{}
-	// querylog.json.1 first: the start-up rotation check of the query log runs
-	// in a goroutine and may rename a file written in the meantime
-	var err error
-	for _, fn := range []string{"querylog.json.1", "querylog.json"} {
-		f, oerr := os.Open(filepath.Join(sc.dir, fn))
-		if oerr != nil {
-			continue
-		}
-		s := bufio.NewScanner(f)
-		s.Buffer(make([]byte, 1<<20), 1<<20)
-		for s.Scan() {
-			var e struct {
-				QH  string
-				IP  string
-				CID string
-			}
-			if jerr := json.Unmarshal(s.Bytes(), &e); jerr != nil {
-				continue
-			}
-			fileItems = append(fileItems, c08Entry(e.QH, e.IP, e.CID))
-			a, _ := netip.ParseAddr(e.IP)
-			stored[e.QH+"|"+a.String()+"|"+e.CID]++
-		}
-		f.Close()
-	}
-	for k, n := range stored {
-		if n > sc.allowLog[k] {
-			sc.fail(sc.divKey("forbidden-record-in-querylog"), fmt.Sprintf("querylog.json holds %d record(s) %s; only %d queries with an un-ignored name and client could have produced it (anonymisation per query as configured)", n, k, sc.allowLog[k]))
-		}
-	}
-	// the statistics
+// readStats: GET /control/stats (the stored units of the window merged with
+// the current one), with the property checked on what is reported.
+func (sc *c08Scen) readStats() (doms, clis []string, num uint64) {
 	w := sc.call(http.MethodGet, "/control/stats", "")
 	var resp struct {
 		TopQueried []map[string]uint64 `json:"top_queried_domains"`
 		TopClients []map[string]uint64 `json:"top_clients"`
 		Num        uint64              `json:"num_dns_queries"`
 	}
-	if err = json.Unmarshal(w.Body.Bytes(), &resp); err != nil {
+	if err := json.Unmarshal(w.Body.Bytes(), &resp); err != nil {
 		sc.t.Fatalf("stats: %v: %s", err, w.Body.String())
 	}
-	var doms, clis []string
 	for _, m := range resp.TopQueried {
 		for k, n := range m {
 			doms = append(doms, vfPair(vfBytes(k), vfN(n)))
 			if int(n) > sc.allowDom[k] {
 				sc.fail(sc.divKey("forbidden-domain-in-stats"), fmt.Sprintf("statistics count %d queries for %q; only %d may be counted", n, k, sc.allowDom[k]))
+			}
+			if ign, by := c08SpecIgnored(sc.sRules, k); ign || sc.sEngine.Has(k) {
+				sc.fail("stats-reports-ignored-domain", fmt.Sprintf("statistics report %q although the current statistics ignore list %v has it (%s)", k, sc.sRules, by))
 			}
 		}
 	}
@@ -827,6 +839,56 @@ func (sc *c08Scen) finish(out *vfOut, tag string) {
 	}
 	sort.Strings(doms)
 	sort.Strings(clis)
+	return doms, clis, resp.Num
+}
+
+// stats observes GET /control/stats in the middle of a scenario.
+func (sc *c08Scen) stats(tag string) {
+	doms, clis, num := sc.readStats()
+	sc.evs = append(sc.evs, vfApp("SStats", vfList("bytes * N", doms), vfList("bytes * bytes * N", clis), vfN(num)))
+	sc.desc = append(sc.desc, fmt.Sprintf("stats (%s) -> %d queries, %d domains, %d clients", tag, num, len(doms), len(clis)))
+	sc.cls2["stats-"+tag] = true
+}
+
+func (sc *c08Scen) finish(out *vfOut, tag string) {
+	sc.flush()
+	// the two files: the rotated one and the current one
+	stored := map[string]int{}
+	readFile := func(fn string) (items []string) {
+		f, oerr := os.Open(filepath.Join(sc.dir, fn))
+		if oerr != nil {
+			return nil
+		}
+		defer f.Close()
+		s := bufio.NewScanner(f)
+		s.Buffer(make([]byte, 1<<20), 1<<20)
+		for s.Scan() {
+			var e struct {
+				QH  string
+				IP  string
+				CID string
+			}
+			if jerr := json.Unmarshal(s.Bytes(), &e); jerr != nil {
+				continue
+			}
+			items = append(items, c08Entry(e.QH, e.IP, e.CID))
+			a, _ := netip.ParseAddr(e.IP)
+			stored[e.QH+"|"+a.String()+"|"+e.CID]++
+		}
+		return items
+	}
+	oldItems := readFile("querylog.json.1")
+	fileItems := readFile("querylog.json")
+	if len(oldItems) > 0 {
+		sc.cls2["rotated-file-nonempty"] = true
+	}
+	for k, n := range stored {
+		if n > sc.allowLog[k] {
+			sc.fail(sc.divKey("forbidden-record-in-querylog"), fmt.Sprintf("querylog.json / querylog.json.1 hold %d record(s) %s; only %d queries with an un-ignored name and client could have produced it (anonymisation per query as configured)", n, k, sc.allowLog[k]))
+		}
+	}
+	// the statistics
+	doms, clis, num := sc.readStats()
 	_ = sc.st.Close()
 
 	macs := []string{}
@@ -836,15 +898,15 @@ func (sc *c08Scen) finish(out *vfOut, tag string) {
 		}
 	}
 	coq := "(CScen " + sc.head + " " + vfList("bytes * bytes", macs) + " " + vfList("sev", sc.evs) + " " +
-		vfList("bytes * bytes * bytes", fileItems) + " " + vfList("bytes * N", doms) + " " +
-		vfList("bytes * bytes * N", clis) + " " + vfN(resp.Num) + ")"
+		vfList("bytes * bytes * bytes", oldItems) + " " + vfList("bytes * bytes * bytes", fileItems) + " " +
+		vfList("bytes * N", doms) + " " + vfList("bytes * bytes * N", clis) + " " + vfN(num) + ")"
 	var classes []string
 	for c := range sc.cls2 {
 		classes = append(classes, c)
 	}
 	sort.Strings(classes)
 	c := vfCase{Coq: coq, Classes: classes, MonitorOK: sc.monMsg == "", MonitorMsg: sc.monMsg,
-		Nontrivial: sc.nForbidden > 0 && len(fileItems) > 0,
+		Nontrivial: sc.nForbidden > 0 && len(fileItems)+len(oldItems) > 0,
 		Desc:       map[string]any{"kind": tag, "events": sc.desc}}
 	if sc.monMsg != "" {
 		c.FindingKey = "C08-" + sc.monKey
@@ -931,6 +993,46 @@ func c08Prelude(t *testing.T, out *vfOut, base string) (n int) {
 		sc.query("ok.example.", false, ap("192.168.1.5"), "")
 		sc.search("memory")
 		sc.finish(out, "prelude-maclike-clientid")
+	}
+
+	// rotation of the log file and roll-over of the statistics unit inside a
+	// scenario; ignore lists and a client flag changed between recording and
+	// the rotation / roll-over and after it: nothing ignored in querylog.json.1
+	// or in the stored units, the re-checks apply to them as well
+	for _, anon := range []bool{false, true} {
+		sc := c08New(t, base, n, anon, false, []string{"||ads.test^", "Mixed.Case.Test"}, []string{"OK.Example"})
+		n++
+		sc.addClient("ign", []string{"192.168.1.5"}, true, true)
+		sc.addClient("known", []string{"192.168.1.6", "cli2"}, false, false)
+		batch := func() {
+			for _, nm := range []string{"ads.test", "a.ads.test", "mixed.case.test", "ok.example", "plain.test", "tracker.example"} {
+				sc.query(c08Spell(nil, nm), false, ap("192.168.1.6"), "")
+				sc.query(c08Spell(nil, nm), false, ap("192.168.1.5"), "")
+				sc.query(strings.ToUpper(nm)+".", false, ap("10.0.0.7"), "cli2")
+			}
+		}
+		batch()
+		sc.flush()
+		sc.setConf(true, anon, []string{"||ads.test^", "Mixed.Case.Test", "plain.test"})
+		sc.rotate()
+		sc.roll(1)
+		sc.search("rotated")
+		sc.stats("after-rollover")
+		batch()
+		sc.setConf(true, anon, []string{"Tracker.Example"})
+		sc.setStatsConf([]string{"Tracker.Example", "*.ADS.test"})
+		sc.updateClient("known", []string{"192.168.1.6", "cli2"}, true, true)
+		sc.search("rotated-after-change")
+		sc.stats("after-change")
+		sc.flush()
+		sc.rotate() // overwrites querylog.json.1: the first batch is gone
+		sc.rotate() // no querylog.json: nothing to rotate
+		sc.roll(2)
+		sc.updateClient("known", []string{"192.168.1.6", "cli2"}, false, false)
+		batch()
+		sc.search("rotated")
+		sc.stats("after-rollover")
+		sc.finish(out, "prelude-rotation")
 	}
 
 	// deprecated POST /control/querylog_config: every field present / absent,
@@ -1029,6 +1131,18 @@ func c08Rand(t *testing.T, out *vfOut, base string, n int, r *vfRand) {
 	if r.Chance(1, 2) {
 		sc.search("memory")
 	}
+	rotated := false
+	if r.Chance(1, 4) {
+		sc.roll(uint32(1 + r.Intn(3)))
+		if r.Bool() {
+			sc.stats("after-rollover")
+		}
+	}
+	if r.Chance(1, 5) {
+		sc.flush()
+		sc.rotate()
+		rotated = true
+	}
 	switch r.Intn(4) {
 	case 0:
 		sc.setConf(r.Chance(5, 6), sc.anon, pickRules())
@@ -1058,18 +1172,40 @@ func c08Rand(t *testing.T, out *vfOut, base string, n int, r *vfRand) {
 			query()
 		}
 	}
+	if r.Chance(1, 4) {
+		sc.setStatsConf(pickRules())
+		sc.stats("after-change")
+	}
 	if r.Chance(2, 3) {
-		sc.search("memory-after-change")
+		if rotated {
+			sc.search("rotated-after-change")
+		} else {
+			sc.search("memory-after-change")
+		}
 	}
 	if r.Chance(1, 2) {
 		sc.flush()
+		if r.Chance(1, 3) {
+			sc.rotate()
+			rotated = true
+			if r.Chance(1, 4) {
+				sc.rotate()
+			}
+		}
+		if r.Chance(1, 4) {
+			sc.roll(uint32(1 + r.Intn(3)))
+		}
 		for i := r.Intn(3); i > 0; i-- {
 			query()
 		}
 		if r.Chance(1, 2) {
 			addClient(r.Bool())
 		}
-		sc.search("file")
+		if rotated {
+			sc.search("rotated")
+		} else {
+			sc.search("file")
+		}
 	}
 	sc.finish(out, "random")
 }
